@@ -62,6 +62,11 @@ Definition cons_id (z e p jp sp : bool) : bool :=
 Definition cons_gen (G0 z eq le : bool) : bool :=
   (negb eq || le) && (negb z || le) && (negb G0 || Bool.eqb z eq) && (G0 || negb (z && eq)) && (negb (G0 && le) || z).
 
+(* what the coordinator's state says about an id of the table: flags only in the matching state *)
+Definition cons_st (st : cstate) (G0 e jp sp : bool) : bool :=
+  (negb (cstate_eqb st CEmpty) || negb e) && (cstate_eqb st CPreparing || negb jp) && (cstate_eqb st CCompleting || negb sp)
+  && (match st with CCompleting | CStable => negb G0 | _ => true end).
+
 Definition cons_focus (ph : phase) (idz id_e id_p id_jp id_sp fz f_e f_p f_jp f_sp f_id : bool) : bool :=
   if ph_eqb ph PJoinSent then
     cons_id fz f_e f_p f_jp f_sp
@@ -73,6 +78,8 @@ Definition cons_g (ib : ibk) (G0 gz g_eq g_le : bool) : bool :=
 
 Definition cons_a (a : av) : bool :=
   cons_id (a_idz a) (a_id_e a) (a_id_p a) (a_id_jp a) (a_id_sp a)
+  && cons_st (a_st a) (a_G0 a) (a_id_e a) (a_id_jp a) (a_id_sp a)
+  && cons_st (a_st a) (a_G0 a) (a_f_e a) (a_f_jp a) (a_f_sp a)
   && cons_gen (a_G0 a) (a_genz a) (a_gen_eq a) (a_gen_le a)
   && cons_focus (a_ph a) (a_idz a) (a_id_e a) (a_id_p a) (a_id_jp a) (a_id_sp a)
                 (a_fz a) (a_f_e a) (a_f_p a) (a_f_jp a) (a_f_sp a) (a_f_id a)
@@ -89,11 +96,11 @@ Definition forall_av (pre : fin_t) (P : av -> bool) : bool :=
     if pre live ph ib rejoin ck hb hbin cmin st then
       fb (fun G0 =>
       fb (fun idz => fb (fun id_e => fb (fun id_p => fb (fun id_jp => fb (fun id_sp =>
-        if cons_id idz id_e id_p id_jp id_sp then
+        if cons_id idz id_e id_p id_jp id_sp && cons_st st G0 id_e id_jp id_sp then
       fb (fun genz => fb (fun gen_eq => fb (fun gen_le =>
         if cons_gen G0 genz gen_eq gen_le then
       fb (fun fz => fb (fun f_e => fb (fun f_p => fb (fun f_jp => fb (fun f_sp => fb (fun f_id =>
-        if cons_focus ph idz id_e id_p id_jp id_sp fz f_e f_p f_jp f_sp f_id then
+        if cons_focus ph idz id_e id_p id_jp id_sp fz f_e f_p f_jp f_sp f_id && cons_st st G0 f_e f_jp f_sp then
       fb (fun gz => fb (fun g_eq => fb (fun g_le =>
         if cons_g ib G0 gz g_eq g_le then
           P (mkA live ph rejoin ck hb ib hbin cmin st G0 idz id_e id_p id_jp id_sp genz gen_eq gen_le
@@ -112,7 +119,8 @@ Proof.
   unfold cons_a in Hc. simpl in Hc. unfold fin_of in Hp. simpl in Hp.
   apply andb_true_iff in Hc; destruct Hc as [Hc Ccm]. apply andb_true_iff in Hc; destruct Hc as [Hc Chb].
   apply andb_true_iff in Hc; destruct Hc as [Hc Cib]. apply andb_true_iff in Hc; destruct Hc as [Hc Cg].
-  apply andb_true_iff in Hc; destruct Hc as [Hc Cf]. apply andb_true_iff in Hc; destruct Hc as [Cid Cgen].
+  apply andb_true_iff in Hc; destruct Hc as [Hc Cf]. apply andb_true_iff in Hc; destruct Hc as [Hc Cgen].
+  apply andb_true_iff in Hc; destruct Hc as [Hc Cst2]. apply andb_true_iff in Hc; destruct Hc as [Cid Cst1].
   unfold forall_av in H.
   apply fb_spec with (b := live) in H. apply fph_spec with (x := ph) in H. apply fib_spec with (i := ib) in H; [|assumption].
   apply fb_spec with (b := rejoin) in H. apply fck_spec with (x := ck) in H. apply fb_spec with (b := hb) in H.
@@ -120,12 +128,12 @@ Proof.
   apply fst4_spec with (x := st) in H. rewrite Hp in H.
   apply fb_spec with (b := G0) in H.
   apply fb_spec with (b := idz) in H. apply fb_spec with (b := id_e) in H. apply fb_spec with (b := id_p) in H.
-  apply fb_spec with (b := id_jp) in H. apply fb_spec with (b := id_sp) in H. rewrite Cid in H.
+  apply fb_spec with (b := id_jp) in H. apply fb_spec with (b := id_sp) in H. rewrite Cid, Cst1 in H. cbn [andb] in H.
   apply fb_spec with (b := genz) in H. apply fb_spec with (b := gen_eq) in H. apply fb_spec with (b := gen_le) in H.
   rewrite Cgen in H.
   apply fb_spec with (b := fz) in H. apply fb_spec with (b := f_e) in H. apply fb_spec with (b := f_p) in H.
   apply fb_spec with (b := f_jp) in H. apply fb_spec with (b := f_sp) in H. apply fb_spec with (b := f_id) in H.
-  rewrite Cf in H.
+  rewrite Cf, Cst2 in H. cbn [andb] in H.
   apply fb_spec with (b := gz) in H. apply fb_spec with (b := g_eq) in H. apply fb_spec with (b := g_le) in H.
   rewrite Cg in H. exact H.
 Qed.
